@@ -39,14 +39,16 @@ struct Line
 {
     std::vector<a_real> buf;
     size_t n;
+    static a_real gv(size_t i) { return (a_real)(GUARDV - (double)i); } // guard cells differ from one another: the delay lines are shifted by block moves
     explicit Line(size_t k) : buf(k + 2 * GUARDN, (a_real)GUARDV), n(k)
     {
+        for (size_t i = 0; i < (size_t)GUARDN; ++i) { buf[i] = gv(i); buf[GUARDN + n + i] = gv(GUARDN + i); }
         for (size_t i = 0; i < n; ++i) { buf[GUARDN + i] = (a_real)777; } // stale contents: init must clear them
     }
     a_real *p() { return buf.data() + GUARDN; }
     bool ok() const
     {
-        for (int i = 0; i < GUARDN; ++i) { if (buf[(size_t)i] != (a_real)GUARDV || buf[GUARDN + n + (size_t)i] != (a_real)GUARDV) { return false; } }
+        for (int i = 0; i < GUARDN; ++i) { if (buf[(size_t)i] != gv((size_t)i) || buf[GUARDN + n + (size_t)i] != gv((size_t)(GUARDN + i))) { return false; } }
         return true;
     }
 };
